@@ -926,6 +926,29 @@ func checkReadErrorOnlyFromSocket(p *Prog, r *Report) {
 							}
 						}
 					}
+					// err = wrap(err): a function of another package applied to the variable itself
+					if !okA && isAs && len(asg.Rhs) == 1 && len(asg.Lhs) == 1 {
+						if call, isC := ast.Unparen(asg.Rhs[0]).(*ast.CallExpr); isC {
+							if f := p.Callee(call); f != nil && f.Pkg() != nil && f.Pkg() != p.Types {
+								only, some := true, false
+								for _, arg := range call.Args {
+									ast.Inspect(arg, func(x ast.Node) bool {
+										if id, ok := x.(*ast.Ident); ok {
+											if o, isV := p.Info.Uses[id].(*types.Var); isV {
+												if o == v {
+													some = true
+												} else {
+													only = false
+												}
+											}
+										}
+										return true
+									})
+								}
+								okA = only && some
+							}
+						}
+					}
 					if !okA {
 						bad = v.Name() + " is also assigned at " + p.Pos(a.Node) + " by something other than the read call"
 					}
